@@ -107,15 +107,25 @@ def objective(w, lf, logm, k, av, sc):
 
 def n_distances_allowed(dmin_kpc, dmax_kpc, step):
     """Fewest points of a log-uniform grid over [dmin, dmax] with spacing <= step.
-    Returns the set of acceptable counts (two when range/step is within 1e-9 of an integer)."""
+
+    The count is decided in exact arithmetic on the float inputs (60-digit decimals):
+    n = ceil(1 + q), q = (log10 dmax - log10 dmin)/step.  Floating-point evaluation of q can
+    land on the other side of an integer when q is within rounding noise of one, so the
+    counts that the two obvious float formulas give are accepted as well -- but only when
+    they differ from the exact q by rounding noise (< 1e-12); a q that is an exact integer
+    with exact float arithmetic (1..10 kpc, step 0.25) has exactly one acceptable count."""
+    import decimal
     if dmin_kpc == dmax_kpc:
         return {1}
-    q = (math.log10(dmax_kpc) - math.log10(dmin_kpc)) / step
-    n = int(math.ceil(1 + q - 1e-9))
-    ok = {max(n, 2)}
-    if abs(q - round(q)) < 1e-9:
-        ok.add(int(round(q)) + 1)
-        ok.add(int(round(q)) + 2)
+    ctx = decimal.Context(prec=60)
+    a = ctx.log10(decimal.Decimal(float(dmin_kpc)))
+    b = ctx.log10(decimal.Decimal(float(dmax_kpc)))
+    q = ctx.divide(ctx.subtract(b, a), decimal.Decimal(float(step)))
+    n_true = int((q + 1).to_integral_value(rounding=decimal.ROUND_CEILING))
+    ok = {max(n_true, 2)}
+    for qf in ((math.log10(dmax_kpc) - math.log10(dmin_kpc)) / step, math.log10(dmax_kpc / dmin_kpc) / step):
+        if abs(decimal.Decimal(qf) - q) < decimal.Decimal('1e-12') * max(1, abs(q)):
+            ok.add(max(int(math.ceil(1 + qf)), 2))
     return ok
 
 
